@@ -730,6 +730,27 @@ fn evaluate(env: &Env, case: &Case, dir: &Path) -> Verdict {
             return v;
         }
     };
+    // a generated tree may make one grammar's output path the source of another grammar
+    // (`l.lalrpop -> g.rs` next to `g.lalrpop` with the output directory == the input
+    // directory): the first build then overwrites the second grammar's text. The statement
+    // says nothing about outputs that alias inputs: excluded and counted.
+    {
+        let resolve = |p: &Path| -> Option<PathBuf> {
+            let abs = if p.is_absolute() { p.to_path_buf() } else { cwd.join(p) };
+            match std::fs::canonicalize(&abs) {
+                Ok(c) => Some(c),
+                Err(_) => {
+                    let parent = std::fs::canonicalize(abs.parent()?).ok()?;
+                    Some(parent.join(abs.file_name()?))
+                }
+            }
+        };
+        let sources: BTreeSet<PathBuf> = ex.processed.iter().filter_map(|(i, _)| resolve(i)).collect();
+        if ex.processed.iter().filter_map(|(_, o)| resolve(o)).any(|o| sources.contains(&o)) {
+            v.infra = Some("model: alias: an output path is the source of a discovered grammar".into());
+            return v;
+        }
+    }
     v.features = ex.features.clone();
     v.expect_err = ex.err;
     v.processed = ex.processed.len();
@@ -922,6 +943,10 @@ fn replay_case(env: &Env, ck: &mut Checker, v: &Value) {
     let r = evaluate(env, &case, &dir);
     ck.eval();
     if let Some(e) = r.infra {
+        if e.starts_with("model: root") || e.starts_with("model: alias") {
+            ck.skip("stored case lies outside the statement (missing walk root, or an output path that is a grammar source)");
+            return;
+        }
         ck.infra(e);
     }
     if let Some(f) = r.fail {
@@ -991,6 +1016,8 @@ pub fn run(ctx: Ctx, replay: Option<PathBuf>) -> i32 {
         if let Some(e) = &v.infra {
             if e.starts_with("model: root") {
                 ck.skip("root of the walk does not exist (statement silent)");
+            } else if e.starts_with("model: alias") {
+                ck.skip("an output path is (through a symlink) the source of a discovered grammar (statement silent)");
             } else {
                 ck.infra(format!("case {i}: {e}"));
             }
